@@ -80,7 +80,7 @@ Lift(r, i) ==       \* liftIntoParPaths(ops) with ops = r.seq[i..]
          CASE op.k = "summ" ->
                 IF op.pin \/ op.pout THEN r
                 ELSE Acc([seq EXCEPT ![i] = AppendToLegs(seq[i], [op EXCEPT !.pout = TRUE]),
-                                     ![eg] = [op EXCEPT !.pin = TRUE, !.kr = op.key]],
+                                     ![eg] = [op EXCEPT !.pin = TRUE, !.kr = op.key, !.fn = ""]],
                          r.taint, r.rules \cup {"lift-summarize"})
            [] op.k = "sort" ->
                 \* only an ascending, nulls-last, non-reversed sort is lifted: the merge that takes
@@ -137,9 +137,10 @@ AnalyzeKeys(op, in) ==
   ELSE IF IsNil(in) THEN NoKey
   ELSE CASE op.k \in {"where", "head", "pass", "uniq", "tail"} -> in
     [] op.k = "cut" ->
-         \* analyzeCuts with one assignment l := r and scoreboard {key}
-         IF op.r = in.f THEN (IF op.l = in.f THEN in ELSE NoKey)      \* scoreboard {key, l}: two entries => unknown
-         ELSE (IF op.l = in.f THEN NoKey ELSE in)                     \* delete l; the key entry survives
+         \* analyzeCuts with one assignment l := r and scoreboard {key}: a field of known order
+         \* reaches the output only if it is assigned (fix 3427a6655), so the key survives -- under
+         \* the name l -- iff r is the key field
+         IF op.r = in.f THEN [in EXCEPT !.f = op.l] ELSE NoKey
     [] op.k = "cutcount" -> NoKey                                      \* FieldsOf(call) fails
     [] op.k = "drop" -> IF op.f = in.f THEN NoKey ELSE in
     [] op.k = "rename" -> IF op.r = in.f THEN [in EXCEPT !.f = op.l] ELSE in
@@ -149,7 +150,7 @@ AnalyzeKeys(op, in) ==
 \* ghost: does the stream really stay sorted by in.f through op?
 ReallyKeeps(op, in) ==
   \/ op.k \in {"where", "head", "pass", "uniq", "tail"}
-  \/ op.k = "cut" /\ op.l = in.f /\ op.r = in.f
+  \/ op.k = "cut" /\ op.r = in.f
   \/ op.k = "drop" /\ op.f # in.f
   \/ op.k = "put" /\ op.l # in.f
   \/ op.k = "rename" /\ ((op.r = in.f) \/ (op.l # in.f /\ op.r # in.f))
@@ -177,7 +178,11 @@ PSKOp(op, parents, acc) ==
     LET uni == IF \A m \in 1..Len(parents) : KeyEq(parents[m], parents[1]) THEN parents[1] ELSE NoKey
         parent == IF Len(parents) > 1 /\ ~IsNil(uni) THEN [uni EXCEPT !.multi = TRUE] ELSE uni
     IN CASE op.k = "summ" ->
-              IF IsNil(parent) \/ op.key = "" \/ op.key # parent.f \/ op.kr # parent.f
+              \* groupByKey (the output column) must be the sort key, and the key expression either
+              \* that field itself or an order-preserving call (floor, ceil, round, bucket) whose
+              \* first argument is that field (orderPreservingCall)
+              IF IsNil(parent) \/ op.key = "" \/ op.key # parent.f
+                 \/ ~((op.fn = "" /\ op.kr = parent.f) \/ (op.fn # "" /\ op.kr = op.key))
               THEN [op |-> op, keys |-> <<NoKey>>, taint |-> acc.taint, rules |-> acc.rules]
               ELSE [op |-> [op EXCEPT !.dir = DirOf(parent)], keys |-> <<parent>>,
                     taint |-> acc.taint \cup (IF parent.multi THEN {"fork-sortkey"} ELSE {})
@@ -241,7 +246,8 @@ DKeys(fs) == [all |-> FALSE, fs |-> fs]
 PredField(p) == IF p = "b<2" THEN "b" ELSE "a"
 DemandIn(op, out) ==
   CASE op.k = "where" -> IF out.all THEN DAll ELSE DKeys(out.fs \cup {PredField(op.ps[i]) : i \in 1..Len(op.ps)})
-    [] op.k = "summ"  -> DKeys((IF op.key = "" THEN {} ELSE {op.kr}) \cup (IF op.agg = "sum" THEN {"b"} ELSE {}))
+    [] op.k = "summ"  -> IF op.fn # "" THEN DAll          \* a call in the key expression: inferDemandExprIn's default
+                         ELSE DKeys((IF op.key = "" THEN {} ELSE {op.kr}) \cup (IF op.agg = "sum" THEN {"b"} ELSE {}))
     [] op.k = "yield" -> IF ~out.all /\ out.fs = {} THEN out ELSE DKeys({op.f})
     [] OTHER -> DAll           \* "conservatively assume that op uses its entire input"
 RECURSIVE DemandFrom(_, _)
@@ -281,7 +287,10 @@ CutOp(l, r) == [k |-> "cut", l |-> l, r |-> r]
 PutOp(l, r) == [k |-> "put", l |-> l, r |-> r]
 RenOp(l, r) == [k |-> "rename", l |-> l, r |-> r]
 SortOp(f, desc, rev, nf) == [k |-> "sort", f |-> f, desc |-> desc, rev |-> rev, nf |-> nf]
-SummOp(agg, key, kr) == [k |-> "summ", agg |-> agg, key |-> key, kr |-> kr, dir |-> 0, pin |-> FALSE, pout |-> FALSE]
+\* key expression: the field kr, or fn(kr) with fn = "floor" (on the integer keys used here floor is the identity)
+SummOp(agg, key, kr) == [k |-> "summ", agg |-> agg, key |-> key, kr |-> kr, fn |-> "", dir |-> 0, pin |-> FALSE, pout |-> FALSE]
+SummFn(agg, key, kr, fn) == [SummOp(agg, key, kr) EXCEPT !.fn = fn]
+KeyExprText(op) == IF op.fn = "" THEN op.kr ELSE op.fn \o "(" \o op.kr \o ")"
 ForkOp(l1, l2) == [k |-> "fork", legs |-> <<l1, l2>>]
 SwOp(p1, s1, p2, s2) == [k |-> "switch", cases |-> <<[p |-> p1, path |-> s1], [p |-> p2, path |-> s2]>>]
 JoinOp(style) == [k |-> "join", style |-> style, ldir |-> 0, rdir |-> 0]
@@ -297,11 +306,12 @@ SimpleOps1 ==
     SortOp("a", FALSE, FALSE, TRUE), SortOp("b", FALSE, FALSE, FALSE),
     [k |-> "head", n |-> 1], [k |-> "head", n |-> 2], [k |-> "tail", n |-> 1],
     [k |-> "uniq"], PassOp,
-    SummOp("count", "a", "a"), SummOp("sum", "a", "a"), SummOp("count", "a", "b"), SummOp("count", "", "") }
+    SummOp("count", "a", "a"), SummOp("sum", "a", "a"), SummOp("count", "a", "b"), SummOp("count", "", ""),
+    SummFn("count", "a", "b", "floor") }
 SimpleOps2 == SimpleOps1 \cup
   { CutOp("c", "a"), CutOp("a", "b"), [k |-> "drop", f |-> "b"], PutOp("b", "a"),
     SortOp("a", TRUE, TRUE, FALSE), SortOp("a", TRUE, FALSE, TRUE), SortOp("b", TRUE, FALSE, FALSE),
-    [k |-> "tail", n |-> 2], SummOp("sum", "a", "b"), SummOp("count", "b", "b") }
+    [k |-> "tail", n |-> 2], SummOp("sum", "a", "b"), SummOp("count", "b", "b"), SummFn("count", "a", "a", "floor") }
 SimpleOps == IF Level >= 2 THEN SimpleOps2 ELSE SimpleOps1
 Terminal == { [k |-> "yield", f |-> "a"] } \cup (IF Level >= 2 THEN { [k |-> "yield", f |-> "b"] } ELSE {})
 
@@ -312,21 +322,23 @@ ForkOps1 ==
     ForkOp(<<SortOp("a", FALSE, FALSE, FALSE)>>, <<SortOp("a", FALSE, FALSE, FALSE)>>),
     ForkOp(<<SortOp("a", TRUE, FALSE, FALSE)>>, <<W("b<2"), SortOp("a", TRUE, FALSE, FALSE)>>),
     ForkOp(<<SortOp("a", FALSE, FALSE, TRUE)>>, <<SortOp("a", FALSE, FALSE, TRUE)>>),
-    ForkOp(<<PutOp("c", "a")>>, <<PassOp, W("a>0"), W("b<2")>>) }
+    ForkOp(<<PutOp("c", "a")>>, <<PassOp, W("a>0"), W("b<2")>>),
+    ForkOp(<<SortOp("a", FALSE, FALSE, FALSE)>>, <<PassOp>>) }
 ForkOps2 == ForkOps1 \cup
   { ForkOp(<<SortOp("a", FALSE, TRUE, FALSE)>>, <<SortOp("a", FALSE, TRUE, FALSE)>>),
     ForkOp(<<SortOp("a", FALSE, FALSE, FALSE), SummOp("count", "a", "a")>>, <<PassOp>>),
-    ForkOp(<<SortOp("a", FALSE, FALSE, FALSE)>>, <<PassOp>>),
     ForkOp(<<[k |-> "head", n |-> 1]>>, <<W("a>0"), SortOp("b", FALSE, FALSE, FALSE)>>) }
 ForkOps == IF Level >= 2 THEN ForkOps2 ELSE ForkOps1
 SwitchOps ==
   { SwOp("a>0", <<PassOp>>, "b<2", <<PutOp("c", "a")>>),
     SwOp("a>0", <<PassOp>>, "true", <<PassOp>>),
     SwOp("!(a>0)", <<W("b<2"), W("a>0"), PassOp>>, "true", <<SortOp("a", FALSE, FALSE, FALSE), SummOp("count", "a", "a")>>) }
-JoinOps == { JoinOp("inner"), JoinOp("left") } \cup (IF Level >= 2 THEN { JoinOp("anti"), JoinOp("right") } ELSE {})
+JoinOps == { JoinOp("inner"), JoinOp("left"), JoinOp("right") } \cup (IF Level >= 2 THEN { JoinOp("anti") } ELSE {})
 MergeOps == { [k |-> "merge", f |-> "a", desc |-> FALSE] }
 
-IsTerminal(op) == op.k = "yield" \/ (op.k = "summ" /\ op.key = "")
+\* (a floor key over a missing operand is a non-missing error value inside a field; nothing
+\* follows such a summarize here, so that error-valued fields stay out of the predicates)
+IsTerminal(op) == op.k = "yield" \/ (op.k = "summ" /\ (op.key = "" \/ op.fn # ""))
 NextOps(prog) ==
   IF prog # <<>> /\ IsTerminal(prog[Len(prog)]) THEN {}
   ELSE SimpleOps \cup Terminal \cup ForkOps \cup SwitchOps
@@ -425,7 +437,7 @@ OpText(op) ==
     [] op.k = "uniq" -> "uniq"
     [] op.k = "pass" -> "pass"
     [] op.k = "summ" -> IF op.key = "" THEN "count()"
-                        ELSE (IF op.agg = "count" THEN "count()" ELSE "sum(b)") \o " by " \o op.key \o ":=" \o op.kr
+                        ELSE (IF op.agg = "count" THEN "count()" ELSE "sum(b)") \o " by " \o op.key \o ":=" \o KeyExprText(op)
     [] op.k = "fork" -> "fork (" \o JoinStr([i \in 1..Len(op.legs) |-> "=> " \o SeqText(op.legs[i])], " ") \o ")"
     [] op.k = "switch" -> "switch (" \o JoinStr([i \in 1..Len(op.cases) |->
                               (IF op.cases[i].p = "true" THEN "default" ELSE "case " \o op.cases[i].p)
@@ -454,7 +466,7 @@ OpCanon(op) ==
          LET flags == " dir=" \o ToString(op.dir) \o " pin=" \o B01(op.pin) \o " pout=" \o B01(op.pout) IN
          IF op.key = "" THEN "summ count:=count()" \o flags \o (IF op.pout THEN "" ELSE " | yield count")
          ELSE "summ " \o op.agg \o ":=" \o (IF op.agg = "count" THEN "count()" ELSE "sum(b)")
-              \o " by " \o op.key \o ":=" \o op.kr \o flags
+              \o " by " \o op.key \o ":=" \o KeyExprText(op) \o flags
     [] op.k = "fork" -> "fork(" \o JoinStr([i \in 1..Len(op.legs) |-> SeqCanon(op.legs[i])], " => ") \o ")"
     [] op.k = "switch" -> "switch(" \o JoinStr([i \in 1..Len(op.cases) |->
                               op.cases[i].p \o " -> " \o SeqCanon(op.cases[i].path)], " => ") \o ")"
@@ -488,7 +500,7 @@ Spec == Init /\ [][Next]_vars
 
 Program == [src |-> [filter |-> <<>>, sk |-> sk], ops |-> prog]
 
-ResJson(x) == [s |-> ValStrs(x.s), ord |-> x.ord, by |-> CmpStr(x.by), det |-> x.det, poison |-> x.poison]
+ResJson(x) == [s |-> ValStrs(x.s), cls |-> x.cls, ord |-> x.ord, by |-> CmpStr(x.by), det |-> x.det, poison |-> x.poison]
 
 \* One evaluation per state: the meaning as analyzed (ref), the rewrite (rw), the
 \* meaning of the rewritten plan (opt).
@@ -516,6 +528,8 @@ Check ==
       \* Emit: every program of <= 1 operator, every state in which a rule fired (the plan
       \* changed), and for the rest the states over the curated inputs with an index in EmitPlain.
       ok == ~ref.poison /\ ((ref.det /\ rw.taint = {}) => eq) /\ demandOK       \* RefSane /\ Preserved /\ DemandSound
-      emit == Emit /\ (Len(prog) <= 1 \/ rw.rules # {} \/ ~ok \/ \E i \in EmitPlain : i <= Len(QuickInputs) /\ inp = QuickInputs[i])
+      \* ... and every extension of a start prefix (they exist for the rules that need three operators)
+      fromPrefix == \E sp \in StartProgs \ {<<>>} : Len(prog) > Len(sp) /\ SubSeq(prog, 1, Len(sp)) = sp
+      emit == Emit /\ (Len(prog) <= 1 \/ rw.rules # {} \/ ~ok \/ fromPrefix \/ \E i \in EmitPlain : i <= Len(QuickInputs) /\ inp = QuickInputs[i])
   IN (emit => PrintT(ToJson(case))) /\ ok
 =============================================================================
